@@ -572,6 +572,27 @@ fn main() {
             println!("{}", json!({"runs": scenarios.len(), "steps": nev, "mismatches": 0, "first_mismatches": []}));
         }
         "e2e-child" => e2e::child_main(),
+        // join_all: TLC vectors (scripts, expected rounds / polls / result) against the crate's JoinAll
+        "joinall" => {
+            let vectors = read_ndjson(&arg("--vectors").expect("--vectors"));
+            let mut trace = Trace::create(&arg("--trace").expect("--trace"));
+            let mut bad = vec![];
+            for (run, v) in vectors.iter().enumerate() {
+                let k: Vec<usize> = v["k"].as_array().unwrap().iter().map(|x| x.as_u64().unwrap() as usize).collect();
+                let r = vcore::catch(|| actix_server::verif::join_all_probe(&k));
+                let obs = match r {
+                    Ok((rounds, polls, result)) => json!({"ev": "joinall", "run": run, "k": k, "rounds": rounds, "polls": polls, "result": result, "panic": ""}),
+                    Err(m) => json!({"ev": "joinall", "run": run, "k": k, "rounds": 0, "polls": [], "result": [], "panic": m}),
+                };
+                trace.emit(&obs);
+                if obs["rounds"] != v["rounds"] || obs["polls"] != v["polls"] || obs["result"] != v["result"] {
+                    bad.push(json!({"run": run, "expected": v, "observed": obs}));
+                }
+            }
+            trace.finish();
+            println!("{}", json!({"runs": vectors.len(), "steps": vectors.len(), "mismatches": bad.len(),
+                                  "first_mismatches": bad.iter().take(10).collect::<Vec<_>>()}));
+        }
         // end-to-end load scenarios on a real Server built through ServerBuilder
         "e2e-load" => {
             let scenarios = read_ndjson(&arg("--scenarios").expect("--scenarios"));
